@@ -19,7 +19,7 @@ worker_init = symfam.worker_init
 
 
 def floors(tier):
-    return {NAME: 600 if tier == "quick" else 6000, REL: 300 if tier == "quick" else 4000}
+    return {NAME: 600 if tier == "quick" else 14000, REL: 300 if tier == "quick" else 9000}
 
 
 def gen_cases(tier, seed):
@@ -31,7 +31,7 @@ def gen_cases(tier, seed):
 def _gen_cases(tier, seed):
     if tier == "quick":
         return symfam.gen_cases(tier, seed, 15, per_group=1, n_pres=3, extra_random=20)
-    return symfam.gen_cases(tier, seed, 15, per_group=5, n_pres=6, extra_random=300)
+    return symfam.gen_cases(tier, seed, 15, per_group=12, n_pres=6, extra_random=600)
 
 
 def run_case(case):
